@@ -40,11 +40,13 @@ def _parse_command_line(cli_args = None):
 
 def _create_override_tuple(key, has_value = True):
   # TODO: Error handling for malformed options
-  section,key = key.split(":", 1)
+  # SECTION:KEY[=VALUE]. Section names may contain ':' ([Table-Form:NAME]) and values may contain ':' and '=',
+  # option keys contain neither: split the value off first, then split section from key at the last ':'.
   if has_value:
     key, value = key.split("=", 1)
   else:
     value = None
+  section,key = key.rsplit(":", 1)
   retval = ConfigParserOverrideTuple(section = section, key = key, value = value)
   return retval
 
